@@ -3,7 +3,6 @@ package main
 import (
 	"fmt"
 	"go/constant"
-	"go/types"
 	"os"
 	"strings"
 
@@ -162,12 +161,7 @@ func runC17(p *Program, r *Report) {
 		if k, ok := v1.(*ssa.Const); ok && k.Value == nil {
 			errNil = true
 		}
-		zero := false
-		if k, ok := v0.(*ssa.Const); ok && k.Value == nil {
-			if _, isStruct := k.Type().Underlying().(*types.Struct); isStruct {
-				zero = true
-			}
-		}
+		zero := zeroResultAt(ret, 0)
 		switch {
 		case errNil && site.Store.Block().Dominates(ret.Block()):
 			r.OK("C17.R4", c, pos, "success return carries the checked construction and a nil error")
@@ -184,6 +178,45 @@ func runC17(p *Program, r *Report) {
 			}
 			r.Check(nonNil, "C17.R4", c, pos, "error return: zero Script and a non-nil error", "zero Script returned with an error that may be nil")
 		default:
+			// a single exit "return result, err" with named results: each path on its own
+			prs, okP := pairedResults(ret, 0, 1)
+			if os.Getenv("C17_DEBUG") != "" {
+				fmt.Printf("C17 paired: ok=%v %+v\n", okP, prs)
+			}
+			if ok := okP; ok && len(prs) > 0 {
+				bad := ""
+				for _, pr := range prs {
+					switch {
+					case pr.ErrNil:
+						// success: the value is the checked construction
+						okSite := false
+						if pr.ValStore != nil && pr.ValStore == site.Store {
+							okSite = true // built in place in the result variable
+						} else if pr.ValStore != nil {
+							if u, isLoad := pr.ValStore.Val.(*ssa.UnOp); isLoad {
+								if fa, isFA := site.Store.Addr.(*ssa.FieldAddr); isFA && u.X == fa.X {
+									okSite = true
+								}
+							}
+						}
+						if !okSite {
+							bad = "a path returns a nil error with something other than the checked construction"
+						}
+					case pr.ErrNonNil:
+						if !pr.ValZero {
+							bad = "a path returns a non-nil error together with a non-zero Script"
+						}
+					default:
+						if pr.ValZero {
+							bad = "a path returns the zero Script with an error that may be nil"
+						} else {
+							bad = "a path returns a non-zero Script with an error that may be non-nil"
+						}
+					}
+				}
+				r.Check(bad == "", "C17.R4", c, pos, fmt.Sprintf("single exit with named results: on each of the %d paths either the checked construction with a nil error or the zero Script with a non-nil error", len(prs)), bad)
+				continue
+			}
 			r.Viol("C17.R4", c, pos, "an error return carries a non-zero Script: "+pv.Of(v0).String(), "")
 		}
 	}
@@ -341,12 +374,7 @@ func c17ByLanguage(p *Program, r *Report, s *Summarizer, fn *ssa.Function, cname
 		c := fmt.Sprintf("%s#return%d", cname, i)
 		pos := p.Pos(ret.Pos())
 		v0, v1 := ret.Results[0], ret.Results[1]
-		zero := false
-		if k, ok := v0.(*ssa.Const); ok && k.Value == nil {
-			if _, isStruct := k.Type().Underlying().(*types.Struct); isStruct {
-				zero = true
-			}
-		}
+		zero := zeroResultAt(ret, 0)
 		if !zero {
 			r.Viol("C17.R4", c, pos, "an error return carries a non-zero Script: "+pv.Of(v0).String(), "")
 			continue
